@@ -1,0 +1,8 @@
+//go:build verif
+
+package fasthttp
+
+// Thin exports for the /verif correspondence harness (property C16).
+
+// VerifTimeoutTokens returns how many slots of the TimeoutHandler semaphore are taken.
+func VerifTimeoutTokens(s *Server) int { return len(s.concurrencyCh) }
